@@ -251,12 +251,20 @@ def gen_plan(prop, seed, index, tier="quick"):
         do = fr.choice([{"reply_error": fr.choice(ERR[api])}, {"reply_error": fr.choice(ERR[api])},
                         "lose_response", {"drop_after_apply": "reset"}, {"drop_before_apply": "eof"}])
         faults = [{"on": {"request": api, "nth": fr.randint(2, 10)}, "do": do}]
-        if nbrokers >= 2 and fr.random() < 0.35:
-            # instead: the coordinator's broker dies around a membership change
+        if nbrokers >= 2 and fr.random() < 0.45:
+            # instead: the coordinator's broker dies around a membership change - at a time,
+            # or shortly after it has answered some group request (nothing in flight then)
             faults = []
-            env.append({"at": round(env[0]["at"] + fr.choice([0.0, 0.02, 0.1, 0.3, 1.0]), 3),
-                        "do": "broker_failover", "node": "coordinator", "d": fr.choice([3.0, 1e6])})
-            env.sort(key=lambda e: e["at"])
+            if fr.random() < 0.5:
+                env.append({"at": round(env[0]["at"] + fr.choice([0.0, 0.02, 0.1, 0.3, 1.0]), 3),
+                            "do": "broker_failover", "node": "coordinator", "d": fr.choice([3.0, 1e6])})
+                env.sort(key=lambda e: e["at"])
+            else:
+                faults = [{"on": {"request": fr.choice(["Heartbeat", "Heartbeat", "JoinGroup", "SyncGroup",
+                                                        "OffsetCommit", "OffsetFetch"]),
+                                  "nth": fr.randint(2, 14)},
+                           "do": {"broker_failover": ["serving_then", fr.choice([3.0, 1e6, 1e6]),
+                                                      fr.choice([2 * cluster["lat"][1] + 0.001, 0.01, 0.05])]}}]
         if fr.random() < 0.6:
             base_kw["enable_auto_commit"] = False
             for m in members:
